@@ -308,6 +308,28 @@ func (ro *RedisOutput) ResetStartPoint(ctx context.Context, runIds []string) err
 				return err
 			}
 		}
+		if ro.bisyncEnabled() {
+			// in bisync mode the position also lives in the recovery state (frontier snapshot and
+			// journal, or the per-slot latest records) : bisyncStartPoint prefers it to the root
+			// checkpoint unless the root is ahead, so the abandoned history's offset would win over
+			// the new snapshot's
+			if err = redis.SelectDB(cli, 0); err != nil {
+				return err
+			}
+			slots := ro.bisyncRecoverySlots()
+			if err = ro.purgeBisyncRecoveryState(cli, ro.cfg.CheckpointName, slots, ids); err != nil {
+				ro.logger.Errorf("reset start point error : purge bisync recovery state, cp(%s), err(%v)", ro.cfg.CheckpointName, err)
+				return err
+			}
+			latest := make([]string, 0, len(slots))
+			for _, slot := range slots {
+				latest = append(latest, checkpoint.BisyncLatestCheckpointKey(ro.cfg.CheckpointName, checkpoint.BisyncSlotTag(slot)))
+			}
+			if err = checkpoint.DeleteBisyncCommitKeys(cli, latest); err != nil {
+				ro.logger.Errorf("reset start point error : delete bisync latest records, cp(%s), err(%v)", ro.cfg.CheckpointName, err)
+				return err
+			}
+		}
 		ro.logger.Infof("reset start point : cp(%s), runIds(%v)", ro.cfg.CheckpointName, ids)
 		return nil
 	}, 3, time.Second*4, 0.3)
